@@ -30,7 +30,7 @@ open Decimal Spec
   **format_flags.** For a supported verb, with `(f, prec)` the format and precision handed to `Append`:
   the text of `Append` is its sign (`-`, or `+` for `+Inf`) followed by a body that does not start with a
   sign character; `Format` writes the sign `-` for negative values, else for `+Inf` a `+` (a space under
-  the ` ` flag), else `+` under the `+` flag, else a space under the ` ` flag; the padding (to the width,
+  the ` ` flag without the `+` flag, as fmt does), else `+` under the `+` flag, else a space under the ` ` flag; the padding (to the width,
   if any) is zeros between sign and body under `0` without `-` for a non-infinite value, spaces on the
   right under `-`, spaces on the left otherwise; the result is at least `width` long, and `sign ++ body`
   when there is no width.
@@ -40,7 +40,7 @@ theorem format_flags (x : Dec) (fl : FmtFlags) (verb : Char) (hv : okVerb verb =
     let prec := (fmtArgs fl verb).2
     let sign : List Char :=
       if x.neg = true then ['-']
-      else if x.form = .inf then (if fl.space = true then [' '] else ['+'])
+      else if x.form = .inf then (if fl.space = true ∧ fl.plus = false then [' '] else ['+'])
       else if fl.plus = true then ['+'] else if fl.space = true then [' '] else []
     let body := appendBody x f prec
     let pad : Nat := match fl.width with
@@ -56,10 +56,10 @@ theorem format_flags (x : Dec) (fl : FmtFlags) (verb : Char) (hv : okVerb verb =
   intro f prec sign body pad
   have hs : sign = fmtSignChars x fl := by
     show (if x.neg = true then ['-']
-      else if x.form = .inf then (if fl.space = true then [' '] else ['+'])
+      else if x.form = .inf then (if fl.space = true ∧ fl.plus = false then [' '] else ['+'])
       else if fl.plus = true then ['+'] else if fl.space = true then [' '] else []) = fmtSignChars x fl
     unfold fmtSignChars
-    simp only [beq_iff_eq]
+    simp only [beq_iff_eq, Bool.and_eq_true, Bool.not_eq_true']
   have hp : pad = fmtPad fl (fmtSignChars x fl) body := by rw [fmtPad_eq, ← hs]; rfl
   have hfe := format_eq x fl verb hv
   refine ⟨append_eq_sign_body x f prec (fmtArgs_known fl verb hv), ?_, ?_, ?_⟩
